@@ -1,13 +1,114 @@
-import HydroVerif.Model.C10
-import Mathlib.Algebra.Order.Field.Basic
-import Mathlib.Tactic.Linarith
+/-
+C10 — property theorems (only). Model: `HydroVerif/Model/C10.lean`; helper lemmas and the specification
+vocabulary (`ps`, `rowScore`, `wm`, `wmF`, `wmU`, `wmRanks`, `PairOK`, `PerfectOrder`, `cvmTextbook`, `adTextbook`,
+`SortsAscending` …) in `Lemmas/C10Scan.lean, C10WM.lean, C10Rank.lean, C10Ranks2.lean, C10Real.lean, C10Unif.lean`.
+
+`α` is any linearly ordered field (ℝ where a square root or a logarithm is involved). `sort` stands for glibc
+`qsort` / `np.sort`; what is assumed of it is spelled out in `PairOK` (stable, by the tolerant comparator),
+`SortsAscending` and `ADSorts`. `eps` is the tie tolerance given to `c_ensrank`, `ceps` the one compiled into its
+comparator (1e-8): values are assumed pairwise tied or separated by more than both (`Separated`).
+-/
+import HydroVerif.Lemmas.C10Unif
+
+set_option linter.unusedSectionVars false
+set_option linter.unusedVariables false
 
 namespace HydroVerif.C10
+open HydroVerif.C04 (sumL absG mean ssd pearson)
 
+section field
 variable {α : Type} [Field α] [LinearOrder α] [IsStrictOrderedRing α]
 
-theorem clampCst_le_half (cst : α) : clampCst cst ≤ 1 / 2 := by
-  unfold clampCst
-  split <;> linarith
+/-! ## 1. `c_ensrank`: the scan is the pairwise mid-rank comparison of Weigel and Mason (2011) -/
+
+/-- the tie-sequence scan over the (stably) sorted pooled array returns the sum, over the members `a` of
+the first ensemble, of their mid-rank in the pooled sample: `½ + #{b < a} + ½ #{b = a}`
+(all ensemble sizes, all tie patterns) -/
+theorem scan_eq_pooled_midranks (sort : List (α × ℕ) → List (α × ℕ)) (eps ceps : α) (heps : 0 < eps)
+    (hc : 0 ≤ ceps) (e1 e2 : List α) (h : PairOK sort eps ceps e1 e2) :
+    scan eps e1.length (sort (pool e1 e2)) = (e1.map fun a => 1 / 2 + rowScore a (e1 ++ e2)).sum := by
+  rw [scan_pool eps ceps heps hc e1 e2 _ h.1 h.2, relSpec_pool_midranks]
+
+/-- hence the kernel's `F` is eq. 1 of Weigel and Mason: `F · m² = Σ_a Σ_b ([b<a] + ½[a=b])` -/
+theorem fpair_eq_weigel_mason (sort : List (α × ℕ) → List (α × ℕ)) (eps ceps : α) (heps : 0 < eps)
+    (hc : 0 ≤ ceps) (e1 e2 : List α) (h : PairOK sort eps ceps e1 e2) :
+    fpair sort eps e1 e2 = wm e1 e2 / (e1.length : α) / (e1.length : α) :=
+  fpair_eq_wmF sort eps ceps heps hc e1 e2 h
+
+/-- `F` lies in [0, 1] and `F(e1, e2) + F(e2, e1) = 1` -/
+theorem wmF_range (e1 e2 : List α) (hlen : e1.length = e2.length) (hpos : 0 < e1.length) :
+    0 ≤ wmF e1 e2 ∧ wmF e1 e2 ≤ 1 ∧ wmF e1 e2 + wmF e2 e1 = 1 := by
+  have h1 := wmF_nonneg e1 e2
+  have h2 := wmF_nonneg e2 e1
+  have h3 := wmF_add_swap e1 e2 hlen hpos
+  exact ⟨h1, by linarith, h3⟩
+
+/-- the comparison uses only `<` and `=`: unchanged by a strictly increasing map of all values … -/
+theorem fpair_strictMono_invariant (sort : List (α × ℕ) → List (α × ℕ)) (eps ceps : α) (heps : 0 < eps)
+    (hc : 0 ≤ ceps) (f : α → α) (hf : StrictMono f) (e1 e2 : List α)
+    (h : PairOK sort eps ceps e1 e2) (h' : PairOK sort eps ceps (e1.map f) (e2.map f)) :
+    fpair sort eps (e1.map f) (e2.map f) = fpair sort eps e1 e2 := by
+  rw [fpair_eq_wmF sort eps ceps heps hc _ _ h, fpair_eq_wmF sort eps ceps heps hc _ _ h', wmF_map hf]
+
+/-- … and by permuting the members of either ensemble -/
+theorem fpair_member_perm_invariant (sort : List (α × ℕ) → List (α × ℕ)) (eps ceps : α) (heps : 0 < eps)
+    (hc : 0 ≤ ceps) (e1 e1' e2 e2' : List α) (p1 : e1.Perm e1') (p2 : e2.Perm e2')
+    (h : PairOK sort eps ceps e1 e2) (h' : PairOK sort eps ceps e1' e2') :
+    fpair sort eps e1' e2' = fpair sort eps e1 e2 := by
+  rw [fpair_eq_wmF sort eps ceps heps hc _ _ h, fpair_eq_wmF sort eps ceps heps hc _ _ h', wmF_perm p1 p2]
+
+/-- the whole kernel: `fmat` holds eq. 1 for every pair `i1 < i2` and `ranks` is eq. 2,
+`1 + Σ_{k≠i} u(i,k)` with `u = 1, ½, 0` as ensemble `i` beats, ties with, or loses to ensemble `k`;
+for every number of forecasts and every ensemble size `m ≥ 1` -/
+theorem ensrank_eq_weigel_mason (sort : List (α × ℕ) → List (α × ℕ)) (epsmin eps ceps : α)
+    (hmin : epsmin ≤ eps) (heps : 0 < eps) (hc : 0 ≤ ceps) (m : ℕ) (hm : 0 < m) (rows : List (List α))
+    (hne : rows ≠ []) (hlen : ∀ e ∈ rows, e.length = m) (hok : rows.Pairwise (PairOK sort eps ceps)) :
+    ensrank sort epsmin eps m rows = .ok (upperF wmF rows, wmRanks rows) := by
+  have hF : rows.Pairwise fun e1 e2 => fpair sort eps e1 e2 = wmF e1 e2 :=
+    hok.imp fun h => fpair_eq_wmF sort eps ceps heps hc _ _ h
+  unfold ensrank
+  rw [if_neg (not_lt.mpr hmin), if_neg (by
+    rw [not_or]; exact ⟨hm.ne', by simpa [List.length_eq_zero_iff] using hne⟩)]
+  rw [upperF_congr _ _ rows hF, ranksOf_eq_wmRanks _ rows m hm hlen hF]
+
+/-- the kernel rejects exactly a tolerance below `epsmin` (1e-20) or an empty dimension -/
+theorem ensrank_rejects_iff (sort : List (α × ℕ) → List (α × ℕ)) (epsmin eps : α) (m : ℕ)
+    (rows : List (List α)) :
+    (∃ e, ensrank sort epsmin eps m rows = .error e) ↔ (eps < epsmin ∨ m = 0 ∨ rows = []) := by
+  unfold ensrank
+  by_cases h1 : eps < epsmin
+  · simp [h1]
+  · by_cases h2 : m = 0 ∨ rows.length = 0
+    · rw [if_neg h1, if_pos h2]
+      simp only [List.length_eq_zero_iff] at h2
+      simp [h1, h2]
+    · rw [if_neg h1, if_neg h2]
+      simp only [List.length_eq_zero_iff] at h2
+      simp [h1, h2]
+
+/-- the kernel's output is unchanged by a strictly increasing re-scaling of all forecast values -/
+theorem ensrank_strictMono_invariant (sort : List (α × ℕ) → List (α × ℕ)) (epsmin eps ceps : α)
+    (hmin : epsmin ≤ eps) (heps : 0 < eps) (hc : 0 ≤ ceps) (m : ℕ) (hm : 0 < m) (rows : List (List α))
+    (hne : rows ≠ []) (hlen : ∀ e ∈ rows, e.length = m) (f : α → α) (hf : StrictMono f)
+    (hok : rows.Pairwise (PairOK sort eps ceps))
+    (hok' : (rows.map (List.map f)).Pairwise (PairOK sort eps ceps)) :
+    ensrank sort epsmin eps m (rows.map (List.map f)) = ensrank sort epsmin eps m rows := by
+  rw [ensrank_eq_weigel_mason sort epsmin eps ceps hmin heps hc m hm rows hne hlen hok,
+    ensrank_eq_weigel_mason sort epsmin eps ceps hmin heps hc m hm _ (by simpa using hne)
+      (by intro e he; obtain ⟨e0, h0, rfl⟩ := List.mem_map.mp he; rw [List.length_map]; exact hlen e0 h0) hok',
+    upperF_wmF_map hf, wmRanks_map hf]
+
+/-- … and by permuting the members inside each ensemble -/
+theorem ensrank_member_perm_invariant (sort : List (α × ℕ) → List (α × ℕ)) (epsmin eps ceps : α)
+    (hmin : epsmin ≤ eps) (heps : 0 < eps) (hc : 0 ≤ ceps) (m : ℕ) (hm : 0 < m) (rows rows' : List (List α))
+    (hne : rows ≠ []) (hlen : ∀ e ∈ rows, e.length = m) (hp : List.Forall₂ List.Perm rows rows')
+    (hok : rows.Pairwise (PairOK sort eps ceps)) (hok' : rows'.Pairwise (PairOK sort eps ceps)) :
+    ensrank sort epsmin eps m rows' = ensrank sort epsmin eps m rows := by
+  rw [ensrank_eq_weigel_mason sort epsmin eps ceps hmin heps hc m hm rows hne hlen hok,
+    ensrank_eq_weigel_mason sort epsmin eps ceps hmin heps hc m hm rows' (forall₂_perm_ne_nil hp hne)
+      (forall₂_perm_length hp m hlen) hok',
+    upperF_wmF_perm hp, wmRanks_perm hp]
+
+end field
 
 end HydroVerif.C10
